@@ -4,63 +4,91 @@
 #include "../tr/c06_drv.cpp"
 #include "gen/c06_dispatch.inc"
 
-// ---- double-precision instantiations (not translated: the same templates, plus the mixed-precision overloads
-// that only exist for them, e.g. float * QuaternionT<double> inside slerp's near-parallel fallback). Flat double
-// arguments / results as 16-digit hex bit patterns; judged by the reference oracle of props/c06.py only.
-namespace dd {
-using namespace rkcommon::math;
-typedef vec_t<double, 3> V3;
-typedef LinearSpace3<V3> L3;
-typedef AffineSpaceT<L3> A3;
-typedef QuaternionT<double> Q;
-typedef vec_t<double, 2> V2;
-typedef LinearSpace2<V2> L2;
+// ---- harness-only wrappers (not translated), instantiated for double (`d_*`: the same templates, plus the
+// mixed-precision overloads that only exist for them, e.g. float * QuaternionT<double> inside slerp's near-parallel
+// fallback) and for float (`f_*`: the compound assignments, which mutate through a reference and are outside the
+// translator's subset). Flat double arguments / results as 16-digit hex bit patterns (for `f_*` the arguments are
+// floats widened to double); judged by the reference oracle of props/c06.py only.
+template <typename S>
+struct HO {
+typedef rkcommon::math::vec_t<S, 3> V3;
+typedef rkcommon::math::LinearSpace3<V3> L3;
+typedef rkcommon::math::AffineSpaceT<L3> A3;
+typedef rkcommon::math::QuaternionT<S> Q;
+typedef rkcommon::math::vec_t<S, 2> V2;
+typedef rkcommon::math::LinearSpace2<V2> L2;
 struct In {
   const std::vector<double> &x;
   size_t p;
-  double s() { return p < x.size() ? x[p++] : 0.0; }
-  V3 v() { double a = s(), b = s(), c = s(); return V3(a, b, c); }
+  S s() { return p < x.size() ? (S)x[p++] : (S)0; }
+  V3 v() { S a = s(), b = s(), c = s(); return V3(a, b, c); }
   L3 l() { V3 a = v(), b = v(), c = v(); return L3(a, b, c); }
+  L2 l2() { S a = s(), b = s(), c = s(), d = s(); return L2(V2(a, b), V2(c, d)); }
   A3 a() { L3 m = l(); V3 t = v(); return A3(m, t); }
-  Q q() { double i = s(), j = s(), k = s(), r = s(); return Q(r, i, j, k); }   // field order i, j, k, r
+  Q q() { S i = s(), j = s(), k = s(), r = s(); return Q(r, i, j, k); }   // field order i, j, k, r
 };
 struct Out {
   std::vector<double> y;
-  void s(double d) { y.push_back(d); }
+  void s(S d) { y.push_back((double)d); }
   void v(const V3 &a) { s(a.x); s(a.y); s(a.z); }
   void l(const L3 &m) { v(m.vx); v(m.vy); v(m.vz); }
+  void l2(const L2 &m) { s(m.vx.x); s(m.vx.y); s(m.vy.x); s(m.vy.y); }
   void a(const A3 &m) { l(m.l); v(m.p); }
   void q(const Q &a) { s(a.i); s(a.j); s(a.k); s(a.r); }
 };
 static bool dispatch(const std::string &n, In in, Out &o)
 {
-  if (n == "d_q_mul") { Q a = in.q(), b = in.q(); o.q(a * b); }
-  else if (n == "d_q_slerp") { float f = (float)in.s(); Q a = in.q(), b = in.q(); o.q(slerp(f, a, b)); }
-  else if (n == "d_q_rotate_vec") { Q a = in.q(); V3 v = in.v(); o.v(a * v); }
-  else if (n == "d_q_from_matrix") { V3 a = in.v(), b = in.v(), c = in.v(); o.q(Q(a, b, c)); }
-  else if (n == "d_q_rotate") { V3 u = in.v(); double r = in.s(); o.q(Q::rotate(u, r)); }
-  else if (n == "d_q_smul") { float f = (float)in.s(); Q a = in.q(); o.q(f * a); }          // mixed precision
-  else if (n == "d_q_muls") { Q a = in.q(); float f = (float)in.s(); o.q(a * f); }          // mixed precision
-  else if (n == "d_q_normalize") { Q a = in.q(); o.q(normalize(a)); }
-  else if (n == "d_q_rcp") { Q a = in.q(); o.q(rcp(a)); }
-  else if (n == "d_q_from_ypr") { double y = in.s(), p = in.s(), r = in.s(); o.q(Q(y, p, r)); }
-  else if (n == "d_l2_orthogonal") {   // Newton iteration with a loop: outside the translator's subset
-    double a = in.s(), b = in.s(), c = in.s(), d = in.s();
-    L2 m(V2(a, b), V2(c, d));
-    L2 r = m.orthogonal();
-    o.s(r.vx.x); o.s(r.vx.y); o.s(r.vy.x); o.s(r.vy.y);
+  using namespace rkcommon::math;
+  if (n == "q_mul") { Q a = in.q(), b = in.q(); o.q(a * b); }
+  else if (n == "q_slerp") { float f = (float)in.s(); Q a = in.q(), b = in.q(); o.q(slerp(f, a, b)); }
+  else if (n == "q_rotate_vec") { Q a = in.q(); V3 v = in.v(); o.v(a * v); }
+  else if (n == "q_from_matrix") { V3 a = in.v(), b = in.v(), c = in.v(); o.q(Q(a, b, c)); }
+  else if (n == "q_rotate") { V3 u = in.v(); S r = in.s(); o.q(Q::rotate(u, r)); }
+  else if (n == "q_smul") { float f = (float)in.s(); Q a = in.q(); o.q(f * a); }          // mixed precision for double
+  else if (n == "q_muls") { Q a = in.q(); float f = (float)in.s(); o.q(a * f); }          // mixed precision for double
+  else if (n == "q_normalize") { Q a = in.q(); o.q(normalize(a)); }
+  else if (n == "q_rcp") { Q a = in.q(); o.q(rcp(a)); }
+  else if (n == "q_from_ypr") { S y = in.s(), p = in.s(), r = in.s(); o.q(Q(y, p, r)); }
+  else if (n == "l2_orthogonal") {   // Newton iteration with a loop: outside the translator's subset
+    L2 m = in.l2();
+    o.l2(m.orthogonal());
   }
-  else if (n == "d_l3_inverse") { L3 m = in.l(); o.l(m.inverse()); }
-  else if (n == "d_l3_det") { L3 m = in.l(); o.s(m.det()); }
-  else if (n == "d_l3_mul") { L3 a = in.l(), b = in.l(); o.l(a * b); }
-  else if (n == "d_l3_rotate") { V3 u = in.v(); double r = in.s(); o.l(L3::rotate(u, r)); }
-  else if (n == "d_l3_from_quat") { Q a = in.q(); o.l(L3(a)); }
-  else if (n == "d_l3_frame") { V3 u = in.v(); o.l(frame(u)); }
-  else if (n == "d_l3_xfmNormal") { L3 m = in.l(); V3 v = in.v(); o.v(xfmNormal(m, v)); }
-  else if (n == "d_a3_rcp") { A3 a = in.a(); o.a(rcp(a)); }
-  else if (n == "d_a3_mul") { A3 a = in.a(), b = in.a(); o.a(a * b); }
-  else if (n == "d_a3_xfmPoint") { A3 a = in.a(); V3 v = in.v(); o.v(xfmPoint(a, v)); }
-  else if (n == "d_a3_lookat") { V3 e = in.v(), p = in.v(), u = in.v(); o.a(A3::lookat(e, p, u)); }
+  else if (n == "l3_inverse") { L3 m = in.l(); o.l(m.inverse()); }
+  else if (n == "l3_det") { L3 m = in.l(); o.s(m.det()); }
+  else if (n == "l3_mul") { L3 a = in.l(), b = in.l(); o.l(a * b); }
+  else if (n == "l3_ldiv") { L3 a = in.l(), b = in.l(); o.l(a / b); }
+  else if (n == "l3_apply") { L3 m = in.l(); V3 v = in.v(); o.v(m * v); }
+  else if (n == "l3_xfmPoint") { L3 m = in.l(); V3 v = in.v(); o.v(xfmPoint(m, v)); }
+  else if (n == "l3_xfmVector") { L3 m = in.l(); V3 v = in.v(); o.v(xfmVector(m, v)); }
+  else if (n == "l3_rotate") { V3 u = in.v(); S r = in.s(); o.l(L3::rotate(u, r)); }
+  else if (n == "l3_from_quat") { Q a = in.q(); o.l(L3(a)); }
+  else if (n == "l3_frame") { V3 u = in.v(); o.l(frame(u)); }
+  else if (n == "l3_xfmNormal") { L3 m = in.l(); V3 v = in.v(); o.v(xfmNormal(m, v)); }
+  else if (n == "a3_rcp") { A3 a = in.a(); o.a(rcp(a)); }
+  else if (n == "a3_mul") { A3 a = in.a(), b = in.a(); o.a(a * b); }
+  else if (n == "a3_div") { A3 a = in.a(), b = in.a(); o.a(a / b); }
+  else if (n == "a3_xfmPoint") { A3 a = in.a(); V3 v = in.v(); o.v(xfmPoint(a, v)); }
+  else if (n == "a3_xfmVector") { A3 a = in.a(); V3 v = in.v(); o.v(xfmVector(a, v)); }
+  else if (n == "a3_xfmNormal") { A3 a = in.a(); V3 v = in.v(); o.v(xfmNormal(a, v)); }
+  else if (n == "a3_lookat") { V3 e = in.v(), p = in.v(), u = in.v(); o.a(A3::lookat(e, p, u)); }
+  else if (n == "a3_rotate_about") { V3 p = in.v(), u = in.v(); S r = in.s(); o.a(A3::rotate(p, u, r)); }
+  // compound assignments: the result is what is left in the object assigned to, and the reference returned must be it
+  else if (n == "a3_imul") { A3 a = in.a(), b = in.a(); A3 &r = (a *= b); if (&r != &a) return false; o.a(a); }
+  else if (n == "a3_idiv") { A3 a = in.a(), b = in.a(); A3 &r = (a /= b); if (&r != &a) return false; o.a(a); }
+  // (AffineSpaceT *= scalar and /= scalar are declared but cannot be instantiated: no AffineSpaceT * scalar exists)
+  else if (n == "a3_imul_self") { A3 a = in.a(); a *= a; o.a(a); }
+  else if (n == "l3_imul") { L3 a = in.l(), b = in.l(); L3 &r = (a *= b); if (&r != &a) return false; o.l(a); }
+  else if (n == "l3_idiv") { L3 a = in.l(), b = in.l(); L3 &r = (a /= b); if (&r != &a) return false; o.l(a); }
+  else if (n == "l3_imul_self") { L3 a = in.l(); a *= a; o.l(a); }
+  else if (n == "l2_imul") { L2 a = in.l2(), b = in.l2(); L2 &r = (a *= b); if (&r != &a) return false; o.l2(a); }
+  else if (n == "l2_idiv") { L2 a = in.l2(), b = in.l2(); L2 &r = (a /= b); if (&r != &a) return false; o.l2(a); }
+  else if (n == "q_imul") { Q a = in.q(), b = in.q(); Q &r = (a *= b); if (&r != &a) return false; o.q(a); }
+  else if (n == "q_idiv") { Q a = in.q(), b = in.q(); Q &r = (a /= b); if (&r != &a) return false; o.q(a); }
+  else if (n == "q_iadd") { Q a = in.q(), b = in.q(); Q &r = (a += b); if (&r != &a) return false; o.q(a); }
+  else if (n == "q_isub") { Q a = in.q(), b = in.q(); Q &r = (a -= b); if (&r != &a) return false; o.q(a); }
+  else if (n == "q_imuls") { Q a = in.q(); S f = in.s(); Q &r = (a *= f); if (&r != &a) return false; o.q(a); }
+  else if (n == "q_idivs") { Q a = in.q(); S f = in.s(); Q &r = (a /= f); if (&r != &a) return false; o.q(a); }
+  else if (n == "q_imul_self") { Q a = in.q(); a *= a; o.q(a); }
   else return false;
   return true;
 }
@@ -74,7 +102,7 @@ static std::string run(const std::vector<std::string> &w)
     xs.push_back(d);
   }
   Out o;
-  if (!dispatch(w[0], In{xs, 0}, o))
+  if (!dispatch(w[0].substr(2), In{xs, 0}, o))
     return "bad-op";
   std::string out;
   for (double d : o.y) {
@@ -86,13 +114,15 @@ static std::string run(const std::vector<std::string> &w)
   }
   return out.empty() ? "-" : out;
 }
-}  // namespace dd
+};
 
 int main()
 {
   return vh::run([]() {}, [](const std::vector<std::string> &w) -> std::string {
     if (w[0].compare(0, 2, "d_") == 0)
-      return dd::run(w);
+      return HO<double>::run(w);
+    if (w[0].compare(0, 2, "f_") == 0)
+      return HO<float>::run(w);
     std::vector<float> xs;
     for (size_t i = 1; i < w.size(); i++)
       xs.push_back(vh::f32_of_tok(w[i]));
